@@ -64,6 +64,15 @@ def run(ctx):
             msg = tdgen.rand_value(rng, types, primary, 0)
             d, alltypes, dv = tdgen.document(rng, types, primary, msg)
             docs.append((d, alltypes, primary, dv, msg, "regression-shape"))
+    # the domain type itself as primary type: message equal to / different from the domain, with and without other structs around
+    for k in range(6 if not thorough else 30):
+        types = tdgen.rand_types(rng, nstructs=rng.choice([1, 2]))[0] if k % 2 else {}
+        sel, dv = tdgen.rand_domain(rng)
+        msg = dict(dv) if k % 3 == 0 else {n: tdgen.rand_value(rng, {}, t, 0) for n, t in sel}
+        all_ = dict(types)
+        all_["EIP712Domain"] = sel
+        d, alltypes, dv = tdgen.document(rng, types, "EIP712Domain", msg, domain_sel=sel, domain_vals=dv)
+        docs.append((d, alltypes, "EIP712Domain", dv, msg, "domain-as-primary-type"))
     # all member-order permutations of a small type graph
     base = [("from", "Person"), ("to", "Person"), ("tx", "Asset"), ("memo", "string")]
     for perm in itertools.permutations(base):
